@@ -370,5 +370,7 @@ func runC04(r *Run) {
 			r.meta.Dist["reload-hit"] = hits
 		}
 	}
-	r.Finish("boundary grid of types x classes x 8 flag sets, then seeded queries (mostly valid, 20% bypass stream); each cacheable query with ~20 one-attribute variants; non-trivial = cacheable query / variant pair; distinct by full query text")
+	// chains with several cache plugins and question-rewriting plugins between them (c04chain.go)
+	runChains04(r)
+	r.Finish("boundary grid of types x classes x 8 flag sets, then seeded queries (mostly valid, 20% bypass stream); each cacheable query with ~20 one-attribute variants; non-trivial = cacheable query / variant pair; distinct by full query text; then seeded sequences with 2-3 cache plugins (distinct or one instance twice; inline, jump or goto) and prefer_ipv4/prefer_ipv6, redirect or a question-rewriting plugin (type, name, class, AD, CD, DO; on a Copy() or in place) between them, 4-10 queries each entering at the head or at a later cache plugin, a probe behind every cache plugin; the observed store/hit events are replayed on the model's trace acceptor (one `chain` line per sequence)")
 }
